@@ -41,3 +41,5 @@ show("fix-nonu", cell, "1 0 -1 nonu=1")
 show("fix-unc", cell, "1 0 -1 unc:n=1")
 # fixed: DataParser.text_phrase had no return: the library value was None and the material could not be written
 show("fix-nlib", data, "m1 1001.80c 1.0 nlib=80c", lambda m: repr(m.format_for_mcnp_input((6, 2, 0))))
+# fixed: a Fortran number whose significand ends in "." followed by a letterless exponent was rejected
+show("fix-dotexp", surf, "1 so 837.+1", lambda s: repr(s.surface_constants))
